@@ -33,6 +33,11 @@ pub trait Backend: Sync + Send {
     fn shutdown(&self, stream: usize, how: std::net::Shutdown) -> io::Result<()>;
     fn dup(&self, stream: usize) -> io::Result<usize>;
     fn close(&self, stream: usize);
+    /// A wait with a timeout is about to start: does its timer fire before anything else happens?
+    /// (Real time may pass arbitrarily between two steps of a thread, so "yes" is always legal.)
+    fn timer_fires(&self, what: &'static str) -> bool;
+    /// SO_RCVTIMEO / SO_SNDTIMEO of a simulated stream
+    fn set_timeout(&self, stream: usize, read: bool, timeout: Option<std::time::Duration>) -> io::Result<()>;
     /// The code under test did something the simulator cannot model; the run is abandoned
     /// (reported as a harness error, never as a verdict).
     fn unsupported(&self, what: &str) -> !;
@@ -74,9 +79,76 @@ pub fn clock_now() -> Option<u128> {
 pub mod sync {
     pub use shuttle::sync::atomic;
     pub use shuttle::sync::{
-        Arc, Barrier, BarrierWaitResult, Condvar, LockResult, MutexGuard, Once, OnceState, PoisonError, RwLock,
-        RwLockReadGuard, RwLockWriteGuard, TryLockError, TryLockResult, WaitTimeoutResult, Weak,
+        Arc, Barrier, BarrierWaitResult, LockResult, MutexGuard, Once, OnceState, PoisonError, RwLock,
+        RwLockReadGuard, RwLockWriteGuard, TryLockError, TryLockResult, Weak,
     };
+    use std::time::Duration;
+
+    /// whether a timed wait returned because its time was up
+    #[derive(Debug, PartialEq, Eq, Copy, Clone)]
+    pub struct WaitTimeoutResult(bool);
+
+    impl WaitTimeoutResult {
+        pub fn timed_out(&self) -> bool {
+            self.0
+        }
+    }
+
+    /// Condition variable whose timed waits can time out (the backend decides when)
+    #[derive(Debug, Default)]
+    pub struct Condvar(shuttle::sync::Condvar);
+
+    impl Condvar {
+        pub fn new() -> Self {
+            Condvar(shuttle::sync::Condvar::new())
+        }
+        pub fn wait<'a, T>(&self, guard: MutexGuard<'a, T>) -> LockResult<MutexGuard<'a, T>> {
+            super::sync_point();
+            self.0.wait(guard)
+        }
+        pub fn wait_while<'a, T, F>(&self, guard: MutexGuard<'a, T>, condition: F) -> LockResult<MutexGuard<'a, T>>
+        where
+            F: FnMut(&mut T) -> bool,
+        {
+            super::sync_point();
+            self.0.wait_while(guard, condition)
+        }
+        pub fn wait_timeout<'a, T>(&self, guard: MutexGuard<'a, T>, _dur: Duration) -> LockResult<(MutexGuard<'a, T>, WaitTimeoutResult)> {
+            super::sync_point();
+            if super::backend().map(|b| b.timer_fires("Condvar::wait_timeout")).unwrap_or(false) {
+                return Ok((guard, WaitTimeoutResult(true)));
+            }
+            match self.0.wait(guard) {
+                Ok(g) => Ok((g, WaitTimeoutResult(false))),
+                Err(e) => Err(PoisonError::new((e.into_inner(), WaitTimeoutResult(false)))),
+            }
+        }
+        pub fn wait_timeout_while<'a, T, F>(&self, mut guard: MutexGuard<'a, T>, dur: Duration, mut condition: F) -> LockResult<(MutexGuard<'a, T>, WaitTimeoutResult)>
+        where
+            F: FnMut(&mut T) -> bool,
+        {
+            loop {
+                if !condition(&mut *guard) {
+                    return Ok((guard, WaitTimeoutResult(false)));
+                }
+                match self.wait_timeout(guard, dur) {
+                    Ok((g, r)) => {
+                        if r.timed_out() {
+                            return Ok((g, r));
+                        }
+                        guard = g;
+                    }
+                    Err(e) => return Err(e),
+                }
+            }
+        }
+        pub fn notify_one(&self) {
+            self.0.notify_one()
+        }
+        pub fn notify_all(&self) {
+            self.0.notify_all()
+        }
+    }
 
     #[derive(Debug, Default)]
     pub struct Mutex<T: ?Sized>(shuttle::sync::Mutex<T>);
@@ -165,9 +237,16 @@ pub mod sync {
                 crate::verif::sync_point();
                 self.0.try_recv()
             }
-            pub fn recv_timeout(&self, timeout: Duration) -> Result<T, RecvTimeoutError> {
+            pub fn recv_timeout(&self, _timeout: Duration) -> Result<T, RecvTimeoutError> {
                 crate::verif::sync_point();
-                self.0.recv_timeout(timeout)
+                if crate::verif::backend().map(|b| b.timer_fires("Receiver::recv_timeout")).unwrap_or(false) {
+                    return match self.0.try_recv() {
+                        Ok(t) => Ok(t),
+                        Err(TryRecvError::Empty) => Err(RecvTimeoutError::Timeout),
+                        Err(TryRecvError::Disconnected) => Err(RecvTimeoutError::Disconnected),
+                    };
+                }
+                self.0.recv().map_err(|_| RecvTimeoutError::Disconnected)
             }
             pub fn iter(&self) -> Iter<'_, T> {
                 self.0.iter()
@@ -183,7 +262,15 @@ pub mod sync {
 /// a panic that escapes the thread's closure ends that thread only (as in std) and is what
 /// `JoinHandle::join` returns.
 pub mod thread {
-    pub use shuttle::thread::{current, panicking, park, park_timeout, sleep, yield_now, Result, Thread, ThreadId};
+    pub use shuttle::thread::{current, panicking, park, sleep, yield_now, Result, Thread, ThreadId};
+
+    pub fn park_timeout(dur: std::time::Duration) {
+        crate::verif::sync_point();
+        if crate::verif::backend().map(|b| b.timer_fires("thread::park_timeout")).unwrap_or(false) {
+            return;
+        }
+        shuttle::thread::park_timeout(dur)
+    }
     use std::io;
     use std::panic::{catch_unwind, AssertUnwindSafe};
 
@@ -337,11 +424,18 @@ pub mod net {
         pub fn try_clone(&self) -> io::Result<TcpStream> {
             super::must_backend().dup(self.id).map(|id| TcpStream { id })
         }
-        pub fn set_read_timeout(&self, _dur: Option<Duration>) -> io::Result<()> {
-            Ok(())
+        pub fn set_read_timeout(&self, dur: Option<Duration>) -> io::Result<()> {
+            // as std: a zero Duration is an error
+            if dur == Some(Duration::new(0, 0)) {
+                return Err(io::Error::new(io::ErrorKind::InvalidInput, "cannot set a 0 duration timeout"));
+            }
+            super::must_backend().set_timeout(self.id, true, dur)
         }
-        pub fn set_write_timeout(&self, _dur: Option<Duration>) -> io::Result<()> {
-            Ok(())
+        pub fn set_write_timeout(&self, dur: Option<Duration>) -> io::Result<()> {
+            if dur == Some(Duration::new(0, 0)) {
+                return Err(io::Error::new(io::ErrorKind::InvalidInput, "cannot set a 0 duration timeout"));
+            }
+            super::must_backend().set_timeout(self.id, false, dur)
         }
         pub fn set_nodelay(&self, _nodelay: bool) -> io::Result<()> {
             Ok(())
